@@ -5,7 +5,7 @@ import numpy as np
 import nets
 
 PID = "C10"
-THEOREMS = ["ucat_seed_in", "ucat_seed_notin", "ucat_map_spec", "ucat_area_spec", "gain_def", "ucat_missing_empty", "seg_spec", "gen_ucat_area_eq", "lstsq_optimal", "lstsq_denominator_nonzero_iff", "lstsq_exact_line", "lstsq_two_points"]
+THEOREMS = ["ucat_seed_in", "ucat_seed_notin", "ucat_map_spec", "ucat_area_spec", "gain_def", "ucat_missing_empty", "seg_spec", "gen_ucat_area_eq", "lstsq_optimal", "lstsq_denominator_nonzero_iff", "lstsq_exact_line", "lstsq_two_points", "gen_segment_length_topo", "gen_segment_average_topo", "gen_segment_median_topo", "gen_ucat_volume_eq"]
 RULE = ("loop-free closed graphs on n<=4 cells (n<=5 thorough) x outlet lists with gaps (missing entries), integer "
         "areas, hand and depths, through subgrid.ucat_area / ucat_volume / segment_length / segment_average / "
         "segment_median in both directions with and without river masks; random D8 rasters to 8x8 through "
